@@ -410,6 +410,15 @@ pub fn run(out: &mut Out, thorough: bool, seed: u64, extra: &[String]) {
                     let c1 = if w == 3 { vec![Complex::new(0.0, -mag(&mut r, top))] } else { c1 };
                     let scale = pick_scale(&mut r, lv.bits, bits_of(max_abs(&c1)), 1, w);
                     enc_case(out, &mut r, &enc, n, k, lv, "cplx", scale, &c1, &[], 0, &format!("cplx-s{}-{}", w, cls));
+                    // a single complex value whose IMAGINARY part is tiny in absolute terms but large after scaling (and the mirror case): the
+                    // encoding granularity is 1/scale, not machine epsilon — at the largest scales that fit this level
+                    if w < 2 && lv.bits >= 70 {
+                        let sb = (lv.bits as i32 - 8).min(1000);
+                        let tiny = pow2(-(r.range(53, 60) as i32).min(sb - 2));
+                        // (the other part is zero or just as tiny: next to an O(1) part the transform's double-precision error would hide the tiny one)
+                        let c2 = if w == 0 { vec![Complex::new(0.0, tiny)] } else { vec![Complex::new(-tiny, tiny / 2.0)] };
+                        enc_case(out, &mut r, &enc, n, k, lv, "cplx", pow2(sb - 3), &c2, &[], 0, &format!("cplx-tiny-part-{}", cls));
+                    }
                     let x = sgn(&mut r) * mag(&mut r, top);
                     let scale = pick_scale(&mut r, lv.bits, bits_of(x.abs()), 0, w);
                     enc_case(out, &mut r, &enc, n, k, lv, "real", scale, &[], &[x], 0, &format!("real-s{}-{}", w, cls));
